@@ -1261,9 +1261,18 @@ impl Drop for Debugger {
 
         match self.debugee.execution_status() {
             ExecutionStatus::Unload => {
-                signal::kill(self.debugee.tracee_ctl().proc_pid(), Signal::SIGKILL)
-                    .expect("kill debugee");
-                waitpid(self.debugee.tracee_ctl().proc_pid(), None).expect("waiting child");
+                let pid = self.debugee.tracee_ctl().proc_pid();
+                signal::kill(pid, Signal::SIGKILL).expect("kill debugee");
+                // the seized tracee reports PTRACE_EVENT_EXIT before it dies and stays in that
+                // stop until it is resumed: wait for the real termination, not for the first event
+                loop {
+                    match waitpid(pid, None).expect("waiting child") {
+                        WaitStatus::Exited(_, _) | WaitStatus::Signaled(_, _, _) => break,
+                        _ => {
+                            _ = sys::ptrace::cont(pid, None);
+                        }
+                    }
+                }
             }
             ExecutionStatus::InProgress => {
                 // ignore all possible errors on breakpoints disabling
